@@ -128,3 +128,17 @@ def big_static_script(rng, elem, old_iface=False):
         lines += ["Erase 0 10 %d" % (N // 2), "Erase 1 0 %d" % N]
     lines += ["Resize 1 %d" % (N + 100), "CopyAssign 0 1", "MoveAssign 1 0", "Clear 1", "Index 1 0" if False else "Clear 0", "End"]
     return lines
+
+
+def double_script(rng):
+    """vectors of double with +0.0 / -0.0 / NaN elements (codes 1000 / 1001 / 1002): equality and ordering are value comparisons"""
+    n = rng.randrange(1, 6)
+    a = [rng.choice([1, 2, 3, 1000, 1001, 1002, 1000, 1001]) for _ in range(n)]
+    b = list(a)
+    for _ in range(rng.randrange(0, 3)):
+        i = rng.randrange(n); b[i] = rng.choice([1000, 1001, 1002, b[i], 2])
+    if rng.random() < 0.2: b = b[:-1]
+    lines = ["R vec dbl 0", "CreateFrom 0 %s 0" % fmt(a), "CreateFrom 1 %s 0" % fmt(b), "Eq 0 1", "Eq 1 0", "Less 0 1", "Less 1 0", "Eq 0 0",
+             "Destroy 1", "CopyCtor 1 0", "Eq 0 1", "Less 0 1", "PushBack 1 %d" % rng.choice([1000, 1001, 1002, 1]), "PushBack 0 %d" % rng.choice([1000, 1001, 1002, 1]),
+             "Eq 0 1", "Less 1 0", "End"]
+    return lines
